@@ -131,6 +131,8 @@ def run(ctx):
             else:
                 okk = abs(a - abs(2.0 ** tt - 1)) <= 1e-8
             ctx.check(bool(okk), 'accuracy:stab', 'accuracy(2^%d-scaled, Y) = %r for d = %d' % (tt, a, d), case=case)
+        a_self = teneva.accuracy([G.copy() for G in Y1], Y1)
+        ctx.check(0 <= a_self <= 1e-7, 'accuracy:self', 'accuracy of a tensor and its copy = %r (d = %d, exponent %d)' % (a_self, d, exp), case=case)
         # stabilised orthogonalisation of the chain
         if d <= 3200 and rng.random() < (0.15 if quick else 0.5):
             k = int(rng.integers(d))
